@@ -199,6 +199,7 @@ static inline QString qs_value(int lo, int hi)
  * the root's content are values of uninterpreted functions of (root, absolute position): a code unit, the first / last occurrence of a
  * character, the longest documented keyword the text starts with.  The contracts name the same functions. */
 #define QS_G(x) x
+#define QS_NOT_G(x)      /* the slice identity is set by QS_SLICE_FIX (normalised); the un-normalised one is not generated */
 int __CPROVER_uninterpreted_mid_id(int id, int pos, int n);
 unsigned short __CPROVER_uninterpreted_unit(int root, int abs);
 int __CPROVER_uninterpreted_first(int root, unsigned short ch, int absfrom);             /* first position >= absfrom of ch in root, or -1 */
@@ -213,6 +214,7 @@ int __CPROVER_uninterpreted_cat(int id, unsigned short ch);
                                 if ((r).len == 0) { (r).src = 0; (r).off = 0; (r).id = 0; } }
 #else
 #define QS_G(x)
+#define QS_NOT_G(x) x
 #define QS_SLICE_FIX(r, s, p)
 #endif
 static inline QString QString_ctor(void) { QString s; s.len = 0; s.id = 0; s.c0 = 0; s.c1 = 0; s.cl = 0; s.tail = 0; s.wpos = -1; QS_G(s.src = 0; s.off = 0;) return s; }
@@ -256,7 +258,7 @@ static inline QString qs_drop_last(QString s, int n)
 {
     QString r = nondet_QString();
     int L = s.len - n;
-    __CPROVER_assume(r.len == L && QSTRING_VALID(r) && r.id == __CPROVER_uninterpreted_mid_id(s.id, 0, L));
+    __CPROVER_assume(r.len == L && QSTRING_VALID(r) QS_NOT_G(&& r.id == __CPROVER_uninterpreted_mid_id(s.id, 0, L)));
     QS_CONTENT(__CPROVER_assume(r.wpos == (s.wpos < L ? s.wpos : -1));
     __CPROVER_assume(L < 1 || r.c0 == s.c0); __CPROVER_assume(L < 2 || r.c1 == s.c1);
     __CPROVER_assume(n > s.tail || r.tail == s.tail - n);)        /* still inside the trailing run: the rest of the run remains */
@@ -268,7 +270,7 @@ static inline QString qs_drop_first(QString s, int n)
 {
     QString r = nondet_QString();
     int L = s.len - n;
-    __CPROVER_assume(r.len == L && QSTRING_VALID(r) && r.id == __CPROVER_uninterpreted_mid_id(s.id, n, L));
+    __CPROVER_assume(r.len == L && QSTRING_VALID(r) QS_NOT_G(&& r.id == __CPROVER_uninterpreted_mid_id(s.id, n, L)));
     QS_CONTENT(__CPROVER_assume(r.wpos == (s.wpos >= n ? s.wpos - n : -1));
     __CPROVER_assume(L < 1 || r.cl == s.cl);
     __CPROVER_assume(n != 1 || L < 1 || r.c0 == s.c1);
@@ -300,7 +302,7 @@ static inline QString QString_mid__int_int(QString s, int pos, int n)
     QString r = s;
     if (p > 0) r = qs_drop_first(r, p);
     if (r.len > L) r = qs_drop_last(r, r.len - L);
-    r.id = __CPROVER_uninterpreted_mid_id(s.id, p, L);
+    QS_NOT_G(r.id = __CPROVER_uninterpreted_mid_id(s.id, p, L);)
     QS_SLICE_FIX(r, s, p)
     return r;
 }
